@@ -88,3 +88,10 @@ Example ex_typename :
             slot_keys (r_root r) = [Some [97]; Some [116]; Some [98]] /\
             r_events r = [EStart [PKey [97]]; EFulfil [PKey [97]]; EStart [PKey [98]]].
 Proof. eexists. split; [vm_compute; reflexivity|]. vm_compute. repeat split. Qed.
+
+(** the hypotheses of C11_mutation_terminates are met by [ex_sigma] / [ex_root] / fuel 5
+    ([ex_hypotheses]); both are needed: the unfair handler of [ex_stuck] never returns, and with
+    fuel for a single idle round the wait for [a] (two rounds) gives up *)
+Example ex_fuel_needed :
+  exists s, run (Some ex_sigma) Mutation 1 ex_root = OutOfFuel s.
+Proof. eexists. vm_compute. reflexivity. Qed.
